@@ -185,7 +185,7 @@ fit_spline_1d(std::ranges::sized_range auto && dt_r, std::ranges::sized_range au
     //   min_{x : Ax = b}  (1/2) x' Q x
     // by solving the KKT equations
     //   [Q A'; A 0] [x; l] =   [0; b]
-    // via LDLt factorization
+    // via LU factorization
 
     Eigen::SparseMatrix<double> H(N_coef + N_eq, N_coef + N_eq);
 
@@ -216,8 +216,13 @@ fit_spline_1d(std::ranges::sized_range auto && dt_r, std::ranges::sized_range au
     rhs.head(N_coef).setZero();
     rhs.tail(N_eq) = b;
 
-    const Eigen::SimplicialLDLT<decltype(H), Eigen::Lower> ldlt(H);
-    return ldlt.solve(rhs).head(N_coef);
+    // The KKT matrix is symmetric but indefinite and badly scaled for short segments (the cost carries
+    // dt^(1 - 2D)): factorize with pivoting, and refine so that the constraints hold to working precision
+    const Eigen::SparseMatrix<double> Hfull = H.template selfadjointView<Eigen::Lower>();
+    const Eigen::SparseLU<Eigen::SparseMatrix<double>> lu(Hfull);
+    Eigen::VectorXd sol = lu.solve(rhs);
+    for (auto it = 0u; it != 2; ++it) { sol += lu.solve(rhs - Hfull * sol); }
+    return sol.head(N_coef);
   }
 }
 
